@@ -385,3 +385,83 @@ pub fn run_memo_chain(case: &Sexp) -> Sexp {
     };
     Lst(vec![Num(fin_s), Num(fin_m), Lst(st), Num(hang as i64)])
 }
+
+/// (34 sched)  a source write on thread 1 while the value's task (thread 0) is inside `notify_subs`
+/// (state = Notifying between "ad:loading_cleared" and the end): the write must still lead to a reload.
+/// Load j yields 10 * (j + 1) and is completed by thread 0 as soon as it has started.
+/// obs (loads_started final_value source hang)
+pub fn run_notifying_window(case: &Sexp) -> Sexp {
+    let sched = case.at(1).nums();
+    let owner = Owner::new();
+    owner.set();
+    let _ = exec::take_inbox();
+    let mut txs = std::collections::VecDeque::new();
+    let mut rxs = vec![];
+    for _ in 0..4 {
+        let (tx, rx) = oneshot::channel::<i64>();
+        txs.push_back(tx);
+        rxs.push(rx);
+    }
+    rxs.reverse();
+    let queue = Arc::new(Mutex::new(rxs));
+    let started = Arc::new(Mutex::new(0i64));
+    let src = ArcRwSignal::new(0i64);
+    let d = ArcAsyncDerived::new({
+        let (queue, src, started) = (Arc::clone(&queue), src.clone(), Arc::clone(&started));
+        move || {
+            let _ = src.get();
+            let rx = queue.lock().unwrap().pop();
+            *started.lock().unwrap() += 1;
+            async move {
+                match rx {
+                    Some(rx) => rx.await.unwrap_or(-1),
+                    None => futures::future::pending::<i64>().await,
+                }
+            }
+        }
+    });
+    let mut inbox = exec::take_inbox();
+    let task = exec::Task::new(inbox.pop().unwrap());
+    assert!(!task.poll());
+    task.take_woken();
+    let ctl = Ctl::new(2, &["ad:value_stored", "ad:loading_cleared", "ad:before_drain", "ad:loading_set"]);
+    {
+        let task = Arc::clone(&task);
+        let started = Arc::clone(&started);
+        ctl.spawn(0, move |ctl, me| {
+            let mut completed = 0i64;
+            loop {
+                if completed < *started.lock().unwrap() {
+                    if let Some(tx) = txs.pop_front() {
+                        completed += 1;
+                        let _ = tx.send(10 * completed);
+                    }
+                }
+                if task.take_woken() {
+                    task.poll();
+                }
+                ctl.pause(me, "parked");
+                if ctl.aborted() {
+                    return;
+                }
+            }
+        });
+    }
+    {
+        let src = src.clone();
+        ctl.spawn(1, move |_ctl, _me| {
+            src.set(1);
+        });
+    }
+    ctl.wait_started();
+    for t in &sched {
+        ctl.step(*t as usize);
+    }
+    let blocked = ctl.settle();
+    let hang = ctl.hang.load(SeqCst) || blocked.iter().any(|b| *b);
+    let st = *started.lock().unwrap();
+    let fin = d.get_untracked().unwrap_or(-1);
+    let sv = src.get_untracked();
+    ctl.finish();
+    Lst(vec![Num(st), Num(fin), Num(sv), Num(hang as i64)])
+}
